@@ -161,6 +161,9 @@ func randFieldText(r *rng, t reflect.Type, pf [4]int, k fileKnobs) string {
 			n = plen + 1 + r.intn(3)
 		} else if r.chance(5) {
 			n = 0
+		} else if r.chance(4) {
+			// far longer than any profile length, around the 8- and 9-bit boundaries of the element count
+			n = []int{255, 256, 257, 258, 300, 511, 512, 513}[r.intn(8)]
 		}
 		parts := make([]string, n)
 		tag := "U"
